@@ -233,6 +233,8 @@ _UN = {
     numpy.log: sym.sv_log,
     numpy.tanh: sym.sv_tanh,
     numpy.arctanh: sym.sv_arctanh,
+    numpy.expm1: lambda x: sym.sv_exp(x) - 1,          # exact over the reals (the float-accuracy reason for expm1 is outside every claim)
+    numpy.log1p: lambda x: sym.sv_log(x + 1),
     numpy.square: _c_square,
     numpy.logical_not: sym.sv_lnot,
     numpy.invert: _c_invert,
@@ -247,7 +249,7 @@ _UN = {
     numpy.conjugate: lambda x: x,
 }
 _FLOAT_RESULT = {numpy.true_divide, numpy.sqrt, numpy.exp, numpy.log, numpy.tanh, numpy.arctanh,
-                 numpy.reciprocal}
+                 numpy.reciprocal, numpy.expm1, numpy.log1p}
 
 _FP = {}
 
@@ -892,7 +894,22 @@ def _sum_vd(vd):
     return vd
 
 
+def _nokw(fname, kw, allowed=()):
+    """keyword arguments a handler does not model must not be dropped silently (a changed call such as max(initial=0) would be invisible)"""
+    for k, v in kw.items():
+        if k in allowed or v is None or (k == "where" and v is True) or (k == "initial" and v is numpy._NoValue) or v is numpy._NoValue:
+            continue
+        raise EngineUnsupported("%s(%s=%r) is not modelled" % (fname, k, v))
+
+
+def _with_initial(fn, initial):
+    if initial is None or initial is numpy._NoValue:
+        return fn
+    return lambda cs: fn(list(cs) + [initial])
+
+
 def f_sum(a, axis=None, dtype=None, keepdims=False, **kw):
+    _nokw("sum", kw, ())
     a = _sa(a)
     kws = dict(axis=axis, keepdims=keepdims)
     if dtype is not None:
@@ -917,6 +934,7 @@ def _prod_cells(cs):
 
 
 def f_prod(a, axis=None, keepdims=False, **kw):
+    _nokw("prod", kw, ())
     a = _sa(a)
     ok, r = _concrete_shortcut("prod", a, axis=axis, keepdims=keepdims)
     if ok:
@@ -925,6 +943,7 @@ def f_prod(a, axis=None, keepdims=False, **kw):
 
 
 def f_mean(a, axis=None, keepdims=False, **kw):
+    _nokw("mean", kw, ('dtype',))
     a = _sa(a)
     ok, r = _concrete_shortcut("mean", a, axis=axis, keepdims=keepdims)
     if ok:
@@ -936,6 +955,7 @@ def f_mean(a, axis=None, keepdims=False, **kw):
 
 
 def f_var(a, axis=None, ddof=0, keepdims=False, **kw):
+    _nokw("var", kw, ('dtype',))
     a = _sa(a)
     ok, r = _concrete_shortcut("var", a, axis=axis, ddof=ddof, keepdims=keepdims)
     if ok:
@@ -953,6 +973,7 @@ def f_var(a, axis=None, ddof=0, keepdims=False, **kw):
 
 
 def f_std(a, axis=None, ddof=0, keepdims=False, **kw):
+    _nokw("std", kw, ('dtype',))
     a = _sa(a)
     ok, r = _concrete_shortcut("std", a, axis=axis, ddof=ddof, keepdims=keepdims)
     if ok:
@@ -966,6 +987,7 @@ def _nan_filter(cs):
 
 
 def f_nanmean(a, axis=None, keepdims=False, **kw):
+    _nokw("nanmean", kw, ('dtype',))
     a = _sa(a)
     ok, r = _concrete_shortcut("nanmean", a, axis=axis, keepdims=keepdims)
     if ok:
@@ -978,6 +1000,7 @@ def f_nanmean(a, axis=None, keepdims=False, **kw):
 
 
 def f_nanvar(a, axis=None, ddof=0, keepdims=False, **kw):
+    _nokw("nanvar", kw, ('dtype',))
     a = _sa(a)
     ok, r = _concrete_shortcut("nanvar", a, axis=axis, ddof=ddof, keepdims=keepdims)
     if ok:
@@ -998,6 +1021,7 @@ def f_nanvar(a, axis=None, ddof=0, keepdims=False, **kw):
 
 
 def f_nanstd(a, axis=None, ddof=0, keepdims=False, **kw):
+    _nokw("nanstd", kw, ('dtype',))
     a = _sa(a)
     ok, r = _concrete_shortcut("nanstd", a, axis=axis, ddof=ddof, keepdims=keepdims)
     if ok:
@@ -1024,20 +1048,24 @@ def _min_cells(cs):
     return m
 
 
-def f_max(a, axis=None, keepdims=False, **kw):
+def f_max(a, axis=None, keepdims=False, initial=None, **kw):
+    _nokw("max", kw)
     a = _sa(a)
-    ok, r = _concrete_shortcut("max", a, axis=axis, keepdims=keepdims)
+    extra = {} if initial is None or initial is numpy._NoValue else dict(initial=initial)
+    ok, r = _concrete_shortcut("max", a, axis=axis, keepdims=keepdims, **extra)
     if ok:
         return r
-    return _reduce(a, axis, keepdims, _max_cells, a._vd)
+    return _reduce(a, axis, keepdims, _with_initial(_max_cells, initial), a._vd)
 
 
-def f_min(a, axis=None, keepdims=False, **kw):
+def f_min(a, axis=None, keepdims=False, initial=None, **kw):
+    _nokw("min", kw)
     a = _sa(a)
-    ok, r = _concrete_shortcut("min", a, axis=axis, keepdims=keepdims)
+    extra = {} if initial is None or initial is numpy._NoValue else dict(initial=initial)
+    ok, r = _concrete_shortcut("min", a, axis=axis, keepdims=keepdims, **extra)
     if ok:
         return r
-    return _reduce(a, axis, keepdims, _min_cells, a._vd)
+    return _reduce(a, axis, keepdims, _with_initial(_min_cells, initial), a._vd)
 
 
 def _nanmax_cells(cs):
@@ -1051,11 +1079,13 @@ def _nanmin_cells(cs):
 
 
 def f_nanmax(a, axis=None, keepdims=False, **kw):
+    _nokw("nanmax", kw, ())
     a = _sa(a)
     return _reduce(a, axis, keepdims, _nanmax_cells, a._vd)
 
 
 def f_nanmin(a, axis=None, keepdims=False, **kw):
+    _nokw("nanmin", kw, ())
     a = _sa(a)
     return _reduce(a, axis, keepdims, _nanmin_cells, a._vd)
 
@@ -1084,6 +1114,7 @@ def _argmin_cells(cs):
 
 
 def f_argmax(a, axis=None, **kw):
+    _nokw("argmax", kw, ('keepdims',))
     a = _sa(a)
     ok, r = _concrete_shortcut("argmax", a, axis=axis)
     if ok:
@@ -1093,6 +1124,7 @@ def f_argmax(a, axis=None, **kw):
 
 
 def f_argmin(a, axis=None, **kw):
+    _nokw("argmin", kw, ('keepdims',))
     a = _sa(a)
     ok, r = _concrete_shortcut("argmin", a, axis=axis)
     if ok:
@@ -1120,16 +1152,19 @@ def _any_cells(cs):
 
 
 def f_all(a, axis=None, keepdims=False, **kw):
+    _nokw("all", kw, ())
     a = _sa(a)
     return _reduce(a, axis, keepdims, _all_cells, _BOOL)
 
 
 def f_any(a, axis=None, keepdims=False, **kw):
+    _nokw("any", kw, ())
     a = _sa(a)
     return _reduce(a, axis, keepdims, _any_cells, _BOOL)
 
 
 def f_cumsum(a, axis=None, **kw):
+    _nokw("cumsum", kw, ('dtype',))
     a = _sa(a)
     r = raw(a)
     if axis is None:
@@ -1292,6 +1327,7 @@ def f_lexsort(keys, axis=-1):
 
 
 def f_unique(a, return_index=False, return_inverse=False, return_counts=False, axis=None, **kw):
+    _nokw("unique", kw, ('equal_nan',))
     a = _sa(a)
     if a.is_concrete():
         if a._vd == _OBJ:
@@ -1358,13 +1394,16 @@ def f_where(cond, x=None, y=None):
 def f_take(a, indices, axis=None, **kw):
     a = _sa(a)
     idx = _concrete_ints(indices)
-    r = numpy.take(raw(a), idx, axis=axis)
+    if kw.get("out") is not None:
+        raise EngineUnsupported("take(out=...)")
+    r = numpy.take(raw(a), idx, axis=axis, mode=kw.get("mode", "raise"))
     if isinstance(r, _nd):
         return SymArray(r, a._vd)
     return _scalar_out(r, a._vd)
 
 
 def f_isin(el, test, **kw):
+    _nokw("isin", kw, ('invert', 'assume_unique'))
     el = _sa(el)
     test = _sa(test)
     if el.is_concrete() and test.is_concrete():
@@ -1415,6 +1454,7 @@ def f_norm(x, ord=None, axis=None, keepdims=False):
 
 
 def f_median(a, axis=None, **kw):
+    _nokw("median", kw, ())
     a = _sa(a)
     ok, r = _concrete_shortcut("median", a, axis=axis)
     if ok:
@@ -1450,6 +1490,7 @@ def f_meshgrid(*xi, **kw):
 
 
 def f_array_equal(a, b, **kw):
+    _nokw("array_equal", kw, ('equal_nan',))
     a = _sa(a)
     b = _sa(b)
     if a.shape != b.shape:
@@ -1512,6 +1553,7 @@ def f_tril(m, k=0):
 
 
 def f_count_nonzero(a, axis=None, **kw):
+    _nokw("count_nonzero", kw, ())
     a = _sa(a)
     return f_sum(numpy.not_equal(a, 0) if a._vd != _BOOL else a, axis=axis)
 
@@ -1633,6 +1675,7 @@ _FUNCS = {
 
 
 def f_ptp(a, axis=None, keepdims=False, **kw):
+    _nokw("ptp", kw, ())
     return f_max(a, axis=axis, keepdims=keepdims) - f_min(a, axis=axis, keepdims=keepdims)
 
 
@@ -1892,6 +1935,12 @@ class NumpyProxy:
 
     def tanh(self, x, *a, **k):
         return self._scalar_or("tanh", sym.sv_tanh, x, *a, **k)
+
+    def expm1(self, x, *a, **k):
+        return self._scalar_or("expm1", lambda v: sym.sv_exp(v) - 1, x, *a, **k)
+
+    def log1p(self, x, *a, **k):
+        return self._scalar_or("log1p", lambda v: sym.sv_log(v + 1), x, *a, **k)
 
     def arctanh(self, x, *a, **k):
         return self._scalar_or("arctanh", sym.sv_arctanh, x, *a, **k)
